@@ -115,8 +115,52 @@ def objdump_case(ctx, nbytes, tag="real-objdump-random-bytes"):
     return out
 
 
+def long_text(n, label_every, ops_kind):
+    """a deterministic objdump-style listing with n instruction lines (labels and blank lines every `label_every`)"""
+    mnems = ["push", "mov", "add", "sub", "lea", "call", "ret", "nop", "xor", "leave"]
+    tails = {"push": "%rbp", "mov": "%rsp,%rbp", "add": "$0x10,%rsp", "sub": "$0x8,%rsp", "lea": "0x8(%rax,%rbx,4),%rcx",
+             "call": "401000 <f0>", "ret": "", "nop": "", "xor": "%eax,%eax", "leave": ""}
+    out = ["", "a.out:     file format elf64-x86-64", "", "", "Disassembly of section .text:"]
+    oracle, addr = [], 0x401000
+    for i in range(n):
+        if i % label_every == 0:
+            out += ["", "%016x <f%d>:" % (addr, i // label_every)]
+        m = mnems[(i * 7 + i // 13) % len(mnems)]
+        t = tails[m] if ops_kind else ""
+        out.append("  %x:\t%s\t%s%s" % (addr, "90 " * (1 + i % 3) + " " * 12, m, ("    " + t) if t else ""))
+        oracle.append(("%x" % addr, m))
+        addr += 1 + i % 3
+    return "\n".join(out) + "\n", oracle
+
+
+def long_listing(ctx, n, label_every, ops_kind):
+    """listings of ANY length: one record per instruction line also when the listing has hundreds of thousands of lines
+    (nothing in the parser may depend on a block size, a recursion depth or a buffer length)"""
+    rep = ctx.report
+    text, oracle = long_text(n, label_every, ops_kind)
+    s = impl.stream_of(ctx.scratch, text)
+    case = {"kind": "long-listing", "instruction_lines": n, "label_every": label_every, "with_operands": ops_kind,
+            "regenerate": "props/c08.py long_text(n, label_every, with_operands)"}
+    if s[0] != "ok":
+        rep.violate("parser-fails-on-long-listing", case, {"instructions": n}, {"outcome": s}, model_agrees_with_spec=None)
+    else:
+        dec = gen.decode_stream(s[1])
+        got = [(a, mn) for a, mn, _ in dec] if dec is not None else None
+        if got != oracle:
+            miss = None
+            if got is not None:
+                k = next((i for i, (x, y) in enumerate(zip(got, oracle)) if x != y), min(len(got), len(oracle)))
+                miss = {"first_difference_at_instruction": k, "expected": oracle[k] if k < len(oracle) else None,
+                        "stream_has": got[k] if k < len(got) else None, "stream_instructions": len(got)}
+            rep.violate("one-instruction-per-instruction-line(long listing)", case, {"instructions": n}, miss,
+                        model_agrees_with_spec=None)
+    rep.case(case, s[0] == "ok", tags=("long-listing",))
+
+
 def run(ctx, factor):
     g, rep = ctx.g, ctx.report
+    for k in range(ctx.budget(1, 6) * min(factor, 2)):
+        long_listing(ctx, g.int(140000, 200000) if k == 0 else g.int(70000, 1200000), g.pick([50, 1000, 7]), g.chance(0.5))
     rep.rule = ("(i) listings rendered from random LineSpecs (instruction lines with 0-3 operands of every AT&T form, "
                 "(bad), comments, annotations, continuation lines, labels, blanks, headers, sections, '...'): decoded "
                 "implementation stream must carry exactly the expected (address, mnemonic) per instruction line, and "
@@ -170,6 +214,12 @@ def finding_reproduces(ctx, f):
 
 
 def replay(ctx, payload):
+    c = payload["case"]
+    if c.get("kind") == "long-listing":
+        text, oracle = long_text(c["instruction_lines"], c["label_every"], c["with_operands"])
+        s = impl.stream_of(ctx.scratch, text)
+        dec = gen.decode_stream(s[1]) if s[0] == "ok" else None
+        return {"implementation_instructions": len(dec) if dec is not None else s, "expected": len(oracle)}
     text = payload["case"]["listing"]
     return {"implementation": impl.stream_of(ctx.scratch, text),
             "model": model.outcome(ctx.driver.call({"op": "stream", "text": text}))}
